@@ -152,15 +152,6 @@ pub struct TopicCleanTracker {
     persist_tx: mpsc::Sender<String>,
 }
 
-impl Drop for TopicCleanTracker {
-    fn drop(&mut self) {
-        // The background persister only holds a weak reference and stops as soon as the tracker
-        // is gone, dropping whatever it had not written yet. Flush the current state of every
-        // topic so that a marker change that has returned survives a clean shutdown.
-        self.flush_all();
-    }
-}
-
 impl TopicCleanTracker {
     pub fn new(store: Arc<CleanMarkerStore>) -> Arc<Self> {
         let (tx, rx) = mpsc::channel::<String>();
@@ -173,7 +164,10 @@ impl TopicCleanTracker {
         tracker
     }
 
-    /// Synchronously persist the current state of every topic.
+    /// Synchronously persist the current state of every topic. The background persister only
+    /// holds a weak reference and stops as soon as the tracker is gone, dropping whatever it had
+    /// not written yet; `Walrus::drop` calls this so that a marker change that has returned
+    /// survives a clean shutdown.
     pub fn flush_all(&self) {
         let snapshot: Vec<(String, CleanMarkerRecord)> = match self.states.read() {
             Ok(guard) => guard
